@@ -117,6 +117,8 @@ def run(ctx):
     # long runs: per-coordinate length scales, n_train_max and the radius rule come into play
     base += [job(D, "lin", m, "sphere_in", seeds[0], 150) for D in ((2,) if q else (2, 3)) for m in (("det", "spec") if q else ("det", "decl", "spec"))]
     base += [job(D, "lin", "spec", "sphere_corner", s, 90) for D in (1, 2) for s in seeds]
+    # small logger caches: the log outgrows its cache repeatedly while the GP keeps selecting from it
+    base += [job(D, "lin", m, "sphere_in", seeds[0], 90, opts={"cache_size": cs}) for D in (1, 2) for m in ("det", "spec") for cs in (8, 30)]
     st = explore(base, ["ans", "noise"], 0, sink, name="runs/b0")
     nz = [job(D, "lin", "spec", "sphere_corner", seeds[0], 62) for D in (1, 2)]
     st = explore(nz, ["noise"], 1, sink, stats=st, name="spec-corner/noise-b1", pos_ok=lambda k, p, r: p % (6 if q else 2) == 0)
